@@ -66,13 +66,23 @@ theorem loseOne_rel (c : Nat) (w : World) : LoseRel w (loseOne c w) ∧
       · simp [hc, h] at hcl
       · rfl
 
-theorem loseOne_inv (hps : ps < w.mySide ∨ w.mySide < ps) (h : Inv ps [] w) (c : Nat) : Inv ps [] (loseOne c w) := by
+theorem loseOne_inv (hps : ps < w.mySide ∨ w.mySide < ps) (h : Inv ps [] w) (htm : TimerOk w) (c : Nat) : Inv ps [] (loseOne c w) := by
   unfold loseOne
   split
   · split
-    · exact step_inv hps h (.lost c) trivial
+    · exact step_inv hps h htm (.lost c) trivial
     · exact h
   · exact h
+
+theorem loseOne_timerOk (htm : TimerOk w) (c : Nat) : TimerOk (loseOne c w) := by
+  unfold loseOne
+  split
+  · split
+    · exact (mm_step w (.lost c)).2 htm
+    · exact htm
+  · exact htm
+
+theorem turn_timerOk (htm : TimerOk w) : TimerOk (turn w) := (mm_step w .turn).2 htm
 
 theorem loseClosing_eq (l : List Nat) (w : World) :
     loseClosing l w = l.foldl (fun v c => loseOne c v) w := by
@@ -99,18 +109,18 @@ theorem loseClosing_length (l : List Nat) : ∀ (v : World), (loseClosing l v).c
       · rfl
     · rfl
 
-theorem loseClosing_spec (l : List Nat) : ∀ (w : World), (ps < w.mySide ∨ w.mySide < ps) → Inv ps [] w →
-    Inv ps [] (loseClosing l w) ∧ LoseRel w (loseClosing l w) ∧
+theorem loseClosing_spec (l : List Nat) : ∀ (w : World), (ps < w.mySide ∨ w.mySide < ps) → Inv ps [] w → TimerOk w →
+    (Inv ps [] (loseClosing l w) ∧ TimerOk (loseClosing l w)) ∧ LoseRel w (loseClosing l w) ∧
     ∀ c ∈ l, ∀ y, (loseClosing l w).conns[c]? = some y → y.closing = true → y.lost = true := by
   induction l with
-  | nil => intro w _ h; exact ⟨h, LoseRel.refl _, by intro c hc; simp at hc⟩
+  | nil => intro w _ h htm; exact ⟨⟨h, htm⟩, LoseRel.refl _, by intro c hc; simp at hc⟩
   | cons c cs ih =>
-    intro w hps h
+    intro w hps h htm
     have e : loseClosing (c :: cs) w = loseClosing cs (loseOne c w) := rfl
     rw [e]
     obtain ⟨r1, d1⟩ := loseOne_rel c w
     have hps' : ps < (loseOne c w).mySide ∨ (loseOne c w).mySide < ps := by rw [r1.mySide]; exact hps
-    obtain ⟨i2, r2, d2⟩ := ih (loseOne c w) hps' (loseOne_inv hps h c)
+    obtain ⟨i2, r2, d2⟩ := ih (loseOne c w) hps' (loseOne_inv hps h htm c) (loseOne_timerOk htm c)
     refine ⟨i2, r1.trans r2, ?_⟩
     intro c' hc' y hy hcl
     rcases List.mem_cons.mp hc' with rfl | hc'
@@ -137,33 +147,33 @@ theorem loseClosing_spec (l : List Nat) : ∀ (w : World), (ps < w.mySide ∨ w.
 
 /-! ## what a turn does once the Manager is stopping -/
 
-theorem connectionLost_stops (h : Inv ps (Thunk.mgrLost :: pend) w) (hms : w.ms = .STOPPING) :
+theorem connectionLost_stops (h : Inv ps (Thunk.mgrLost :: pend) w) (hms : w.ms = .STOPPING) (htm : TimerOk w) :
     (connectionLost w).1.ms = .STOPPED := by
   obtain ⟨c, x, hc, _⟩ := h.armed (by simp [core, hms, inConn])
   have hc' : w.conn = some c := hc
-  unfold connectionLost
-  simp only [hc', Option.isNone_some, Bool.false_eq_true, ↓reduceIte]
+  rw [connectionLost_eq w htm]
+  simp only [hc', Option.isNone_some, Bool.false_eq_true, ↓reduceIte, lostWorld]
   split
   · simp only [mInput, hms, Manager.table]; rw [ms_mOuts]
   · simp only [mInput, hms, Manager.table]; rw [ms_mOuts]
 
-theorem runThunks_stops (l : List Thunk) : ∀ (w : World), Inv ps (l ++ pend) w → w.ms = .STOPPING → Thunk.mgrLost ∈ l →
+theorem runThunks_stops (l : List Thunk) : ∀ (w : World), Inv ps (l ++ pend) w → TimerOk w → w.ms = .STOPPING → Thunk.mgrLost ∈ l →
     (runThunks l w).ms = .STOPPED := by
   induction l with
-  | nil => intro w _ _ hm; simp at hm
+  | nil => intro w _ _ _ hm; simp at hm
   | cons t rest ih =>
-    intro w h hms hm
+    intro w h htm hms hm
     simp only [runThunks]
-    have hinv : Inv ps (rest ++ pend) (runThunk t w) := runThunk_inv t h
+    have hinv : Inv ps (rest ++ pend) (runThunk t w) := runThunk_inv t h htm
     by_cases ht : t = Thunk.mgrLost
     · subst ht
-      exact (msok_runThunks rest _).stopped (connectionLost_stops h hms)
+      exact (msok_runThunks rest _).stopped (connectionLost_stops h hms htm)
     · have hm' : Thunk.mgrLost ∈ rest := by
         rcases List.mem_cons.mp hm with e | e
         · exact absurd e.symm ht
         · exact e
       rcases (msok_runThunk t w).stopping hms with e | e
-      · exact ih _ hinv e hm'
+      · exact ih _ hinv ((mm_runThunk t w).2 htm) e hm'
       · exact (msok_runThunks rest _).stopped e
 
 theorem ts_runThunk (t : Thunk) (w : World) :
@@ -221,14 +231,14 @@ theorem runThunks_closes (l : List Thunk) (w : World) (h : w.ts = .S_stoppingD) 
 
 /-- after `Dilator.stop()`, cooperative completion reaches `S_stopped` and `B.closed()` has been
     called exactly once -/
-theorem settle_closes (hps : ps < w.mySide ∨ w.mySide < ps) (h : Inv ps [] w) (hts : w.ts = .S_stoppingD) :
+theorem settle_closes (hps : ps < w.mySide ∨ w.mySide < ps) (h : Inv ps [] w) (htm : TimerOk w) (hts : w.ts = .S_stoppingD) :
     (settle w).ts = .S_stopped ∧ (settle w).closed = 1 := by
   unfold settle
-  obtain ⟨i1, r1, d1⟩ := loseClosing_spec (ps := ps) (List.range w.conns.length) w hps h
-  generalize hw1 : loseClosing (List.range w.conns.length) w = w1 at i1 r1 d1
+  obtain ⟨⟨i1, t1⟩, r1, d1⟩ := loseClosing_spec (ps := ps) (List.range w.conns.length) w hps h htm
+  generalize hw1 : loseClosing (List.range w.conns.length) w = w1 at i1 t1 r1 d1
   have hts1 : w1.ts = .S_stoppingD := r1.ts.trans hts
-  have i2 : Inv ps [] (turn w1) := turn_inv i1
-  have i3 : Inv ps [] (turn (turn w1)) := turn_inv i2
+  have i2 : Inv ps [] (turn w1) := turn_inv i1 t1
+  have i3 : Inv ps [] (turn (turn w1)) := turn_inv i2 (turn_timerOk t1)
   -- it is enough to reach S_stopped: the invariant ties `closed` to it
   suffices hfin : (turn (turn w1)).ts = .S_stopped by
     refine ⟨hfin, ?_⟩
@@ -271,6 +281,7 @@ theorem settle_closes (hps : ps < w.mySide ∨ w.mySide < ps) (h : Inv ps [] w) 
       unfold turn
       apply runThunks_stops (ps := ps) (pend := [])
       · simp only [List.append_nil]; exact InvC.startTurn (k := core w1) i1
+      · exact t1
       · exact hms'
       · exact hq
     rcases runThunks_ts_stoppingD w1.queue { w1 with queue := [] } hts1 with e | e
@@ -293,13 +304,13 @@ theorem loseClosing_ts (l : List Nat) (v : World) : (loseClosing l v).ts = v.ts 
     exact (loseOne_rel a v).1.ts
 
 /-- from `S_stopped` nothing moves any more -/
-theorem settle_stays_closed (hps : ps < w.mySide ∨ w.mySide < ps) (h : Inv ps [] w) (hts : w.ts = .S_stopped) :
+theorem settle_stays_closed (hps : ps < w.mySide ∨ w.mySide < ps) (h : Inv ps [] w) (htm : TimerOk w) (hts : w.ts = .S_stopped) :
     (settle w).ts = .S_stopped ∧ (settle w).closed = 1 := by
   unfold settle
-  obtain ⟨i1, _, _⟩ := loseClosing_spec (ps := ps) (List.range w.conns.length) w hps h
+  obtain ⟨⟨i1, t1⟩, _, _⟩ := loseClosing_spec (ps := ps) (List.range w.conns.length) w hps h htm
   have hts1 : (loseClosing (List.range w.conns.length) w).ts = .S_stopped := by rw [loseClosing_ts]; exact hts
-  generalize loseClosing (List.range w.conns.length) w = w1 at i1 hts1
-  have i3 : Inv ps [] (turn (turn w1)) := turn_inv (turn_inv i1)
+  generalize loseClosing (List.range w.conns.length) w = w1 at i1 t1 hts1
+  have i3 : Inv ps [] (turn (turn w1)) := turn_inv (turn_inv i1 t1) (turn_timerOk t1)
   have hfin : (turn (turn w1)).ts = .S_stopped :=
     runThunks_ts_stopped _ _ (runThunks_ts_stopped _ _ hts1)
   refine ⟨hfin, ?_⟩
@@ -310,13 +321,13 @@ theorem settle_stays_closed (hps : ps < w.mySide ∨ w.mySide < ps) (h : Inv ps 
 
 /-- `S_stoppingRC --stoppedRC-->`: `Dilator.stop()` never raises, and leaves the Terminator in
     `S_stoppingD` (with a Manager) or already in `S_stopped` (without) -/
-theorem stoppedRC_done (h : Inv ps [] w) (hts : w.ts = .S_stoppingRC) :
+theorem stoppedRC_done (h : Inv ps [] w) (htm : TimerOk w) (hts : w.ts = .S_stoppingRC) :
     (step w (.term .stoppedRC)).2 = .done ∧
     ((step w (.term .stoppedRC)).1.ts = .S_stoppingD ∨ (step w (.term .stoppedRC)).1.ts = .S_stopped) := by
   simp only [step, termFuel, tInput, hts, Terminator.table, tOuts]
   by_cases hm : w.hasMgr = true
   · rw [if_pos hm]
-    obtain ⟨e1, _⟩ := stopRow_inv h hts hm
+    obtain ⟨e1, _⟩ := stopRow_inv h hts hm htm
     rw [andThen_ok e1]
     rcases hr : (andThen (mInput .k_stop "" 0 { w with ts := .S_stoppingD }) fun w1 => (whenStopped w1, none)) with ⟨u, e⟩
     rw [hr] at e1
